@@ -320,8 +320,8 @@ def make_rabin_transducer(zk, yki, xkijr, aut):
     s = rf"({c}' = {c}) /\ ({w}' = {none})"
     count = aut.add_expr(s)
     rho_1 = aut.false
-    basin = zk[0]
-    for z in zk[1:]:
+    basin = aut.false
+    for z in zk:
         zstar = _controllable_action(basin, aut)
         rim = z & ~ basin
         u = rim & zstar
